@@ -7,11 +7,15 @@ package main
 import (
 	"go/token"
 	"go/types"
+	"strings"
 
 	"golang.org/x/tools/go/ssa"
 )
 
-type taintSrc struct{ Type, Field string }
+type taintSrc struct {
+	Type, Field string
+	Whole       bool // the field value itself is the shared map (not its elements)
+}
 
 type taintResult struct {
 	vals   map[ssa.Value]string // value -> why
@@ -28,7 +32,16 @@ func runSharedMapTaint(c *Ctx, srcs []taintSrc) *taintResult {
 	isSrcField := func(fa *ssa.FieldAddr) bool {
 		tn, fnm := typeNameOf(fa.X.Type()), fieldName(fa.X.Type(), fa.Field)
 		for _, s := range srcs {
-			if s.Type == tn && s.Field == fnm {
+			if !s.Whole && s.Type == tn && s.Field == fnm {
+				return true
+			}
+		}
+		return false
+	}
+	isWholeSrc := func(fa *ssa.FieldAddr) bool {
+		tn, fnm := typeNameOf(fa.X.Type()), fieldName(fa.X.Type(), fa.Field)
+		for _, s := range srcs {
+			if s.Whole && s.Type == tn && s.Field == fnm {
 				return true
 			}
 		}
@@ -99,6 +112,11 @@ func runSharedMapTaint(c *Ctx, srcs []taintSrc) *taintResult {
 					}
 					if ia, ok := x.X.(*ssa.IndexAddr); ok && isSrcContainer(ia.X) {
 						if add(x, "element of the shared configuration slice") {
+							changed = true
+						}
+					}
+					if fa, ok := x.X.(*ssa.FieldAddr); ok && isWholeSrc(fa) && !la.isFresh(fa.X) {
+						if add(x, "the shared "+fieldName(fa.X.Type(), fa.Field)+" set of a "+typeNameOf(fa.X.Type())) {
 							changed = true
 						}
 					}
@@ -203,6 +221,13 @@ func runSharedMapTaint(c *Ctx, srcs []taintSrc) *taintResult {
 					r.reads++
 				}
 			case ssa.CallInstruction:
+				if n := calleeName(x); strings.Contains(n, "util/sets.") && (strings.HasSuffix(n, ").Insert") || strings.HasSuffix(n, ").Delete")) {
+					if rv := recvOf(x); rv != nil {
+						if _, ok := r.vals[rv]; ok {
+							r.sinks = append(r.sinks, x)
+						}
+					}
+				}
 				if b, ok := x.Common().Value.(*ssa.Builtin); ok && b.Name() == "delete" {
 					if _, ok := r.vals[x.Common().Args[0]]; ok {
 						r.sinks = append(r.sinks, x)
@@ -251,7 +276,7 @@ func callersOf(c *Ctx, target *ssa.Function) map[*ssa.Function]bool {
 
 // C12.R4 — the static per-network configuration is never written after Init.
 func ruleSharedConfImmutable(c *Ctx, rule string) {
-	res := runSharedMapTaint(c, []taintSrc{{"Galaxy", "netConf"}, {"JsonConf", "NetworkConf"}, {"Galaxy", "NetworkConf"}})
+	res := runSharedMapTaint(c, []taintSrc{{Type: "Galaxy", Field: "netConf"}, {Type: "JsonConf", Field: "NetworkConf"}, {Type: "Galaxy", Field: "NetworkConf"}})
 	c.note("%s: %d values may alias a shared configuration map, %d fields hold one, %d lookups of the shared table", rule, len(res.vals), len(res.fields), res.reads)
 	if res.reads == 0 {
 		c.undecided(rule, nil, "reads of Galaxy.netConf", nil, "no lookup in the shared configuration table found: the rule no longer sees how configuration is handed out")
